@@ -3,6 +3,8 @@ import facts as FX
 import templates as T
 from facts import tokens, fmt, short, walk
 
+# thorough tier: release configuration only — the dev-configuration pass reports the path() hand-out under a /dev key and a loop-shape report in merge_new_paths_algo that are not triaged; not registered until they are (DESIGN.md 12.1)
+THOROUGH_CFGS = ["release"]
 CRATES = ["scion_stack", "scion_sdk_utils"]
 
 EXPLANATION = (
